@@ -641,6 +641,8 @@ def main(argv: list[str] | None = None) -> int:
     if floor_msgs and rc == 0:
         print(f"HARNESS-ERROR property={pid} generator regression: " + "; ".join(floor_msgs))
         return 2
+    inconclusive = sum(v for k, v in total.skips.items() if k.startswith("inconclusive"))
     print(f"{pid} {tier} seed={seed}: {total.evals} evaluations, {distinct_nt} distinct non-trivial, "
-          f"{len(unknown)} violation bucket(s), {len(known_hits)} known finding(s), {wall:.1f}s")
+          f"{len(unknown)} violation bucket(s), {len(known_hits)} known finding(s), {wall:.1f}s"
+          + (f", {inconclusive} case(s) INCONCLUSIVE (wall-clock backstop)" if inconclusive else ""))
     return rc
